@@ -71,6 +71,9 @@ func parkOn(t *thread) {
 	}
 }
 
+// Killing reports whether the goroutines of a finished run are being unwound.
+func Killing() bool { return killing }
+
 // Active reports whether a controlled run is in progress.
 func Active() bool { return active }
 
